@@ -80,3 +80,120 @@ def parse(text):
     if pos[0] != len(toks):
         raise ReadError("trailing tokens %r" % (toks[pos[0]:],))
     return tree
+
+
+# ---- string literals (independent reader used by C13) -------------------------------------------------------------
+class LiteralError(Exception):
+    pass
+
+
+_SIMPLE = {"a": 7, "b": 8, "f": 12, "n": 10, "r": 13, "t": 9, "v": 11, "\\": 92, '"': 34, "'": 39}
+
+
+def read_string_literal(text, dialect="luau", interpolated=False):
+    """Bytes denoted by ONE complete string literal `text` (str) under Lua 5.1 (§2.1) or Luau's lexer rules.
+
+    quoted forms: \\a \\b \\f \\n \\r \\t \\v \\\\ \\" \\' \\<newline> \\ddd (<= 255); Luau adds \\xHH, \\z, \\u{H..} (UTF-8).
+    long brackets: `[=*[ ... ]=*]`, a newline right after the opener is dropped, content is raw, no CR allowed here
+    (Lua normalises CR / CRLF in long strings, so a CR cannot be written this way).
+    `interpolated`: `text` is the inside of one backtick segment (Luau): additionally \\` and \\{ ; bare ` and { are errors.
+    Any deviation (unknown escape, raw newline in a quoted string, trailing text) raises LiteralError."""
+    data = text.encode("utf-8") if isinstance(text, str) else bytes(text)
+    out = bytearray()
+    if interpolated:
+        quote, i, end = None, 0, len(data)
+    else:
+        if not data:
+            raise LiteralError("empty")
+        if data[0:1] == b"[":
+            j = 1
+            while j < len(data) and data[j:j + 1] == b"=":
+                j += 1
+            if data[j:j + 1] != b"[":
+                raise LiteralError("not a long bracket")
+            level = j - 1
+            closer = b"]" + b"=" * level + b"]"
+            body = data[j + 1:]
+            k = body.find(closer)
+            if k < 0 or k + len(closer) != len(body):
+                raise LiteralError("long bracket closes early or not at all")
+            body = body[:k]
+            if body[:2] in (b"\r\n", b"\n\r"):
+                body = body[2:]
+            elif body[:1] in (b"\n", b"\r"):
+                body = body[1:]
+            if b"\r" in body:
+                raise LiteralError("CR inside a long string is normalised by the reader")
+            return bytes(body)
+        quote = data[0]
+        if quote not in (34, 39):
+            raise LiteralError("not a string literal")
+        i, end = 1, len(data) - 1
+        if end < 1 or data[end] != quote:
+            raise LiteralError("unterminated")
+    while i < end:
+        c = data[i]
+        if quote is not None and c == quote:
+            raise LiteralError("closes early")
+        if interpolated and c in (96, 123):
+            raise LiteralError("bare ` or { in an interpolated segment")
+        if c in (10, 13):
+            raise LiteralError("raw newline in a quoted string")
+        if c != 92:
+            out.append(c)
+            i += 1
+            continue
+        i += 1
+        if i >= end:
+            raise LiteralError("dangling backslash")
+        e = chr(data[i])
+        if e in _SIMPLE:
+            out.append(_SIMPLE[e])
+            i += 1
+        elif interpolated and e in "`{":
+            out.append(ord(e))
+            i += 1
+        elif e in "\n\r":
+            out.append(10)
+            i += 1
+            if i < end and chr(data[i]) in "\n\r" and chr(data[i]) != e:
+                i += 1
+        elif e.isdigit():
+            j = i
+            while j < end and j < i + 3 and chr(data[j]).isdigit():
+                j += 1
+            v = int(data[i:j])
+            if v > 255:
+                raise LiteralError("decimal escape too large")
+            out.append(v)
+            i = j
+        elif dialect == "luau" and e == "x":
+            h = data[i + 1:i + 3].decode("ascii", "replace")
+            if len(h) != 2 or any(ch not in "0123456789abcdefABCDEF" for ch in h) or i + 3 > end:
+                raise LiteralError("bad \\x escape")
+            out.append(int(h, 16))
+            i += 3
+        elif dialect == "luau" and e == "z":
+            i += 1
+            while i < end and data[i] in (32, 9, 10, 11, 12, 13):
+                i += 1
+        elif dialect == "luau" and e == "u":
+            if data[i + 1:i + 2] != b"{":
+                raise LiteralError("bad \\u escape")
+            j = data.find(b"}", i + 2, end)
+            h = data[i + 2:j].decode("ascii", "replace") if j > 0 else ""
+            if j < 0 or not h or any(ch not in "0123456789abcdefABCDEF" for ch in h) or int(h, 16) > 0x10FFFF:
+                raise LiteralError("bad \\u escape")
+            cp = int(h, 16)
+            if cp < 0x80:
+                out.append(cp)
+            elif cp < 0x800:
+                out += bytes([0xC0 | cp >> 6, 0x80 | cp & 0x3F])
+            elif cp < 0x10000:
+                out += bytes([0xE0 | cp >> 12, 0x80 | (cp >> 6) & 0x3F, 0x80 | cp & 0x3F])
+            else:
+                out += bytes([0xF0 | cp >> 18, 0x80 | (cp >> 12) & 0x3F, 0x80 | (cp >> 6) & 0x3F, 0x80 | cp & 0x3F])
+            i = j + 1
+        else:
+            raise LiteralError("unknown escape \\%s" % e)
+    return bytes(out)
